@@ -14,7 +14,7 @@
    never touches the terminator after it located it).  A read or a write at
    an index outside that list makes the model function return None. *)
 From Coq Require Import List ZArith Bool Arith.
-From RtoscV Require Import Osc.OscModel Ports.MetaModel Ports.NameModel.
+From RtoscV Require Import Match.PatSpec Match.MatchModel Osc.OscModel Ports.MetaModel Ports.NameModel.
 Import ListNotations.
 Local Open Scope Z_scope.
 
@@ -188,7 +188,7 @@ Inductive ares :=
 | ANull                          (* NULL *)
 | AFound (id : list nat)         (* the port with that index path *)
 | ACrash                         (* strchr(path,'/') returned NULL and was dereferenced *)
-| AUnsupported.
+| AUnsupported.                  (* the matcher model ran out of fuel (never: C05_path_total) *)
 
 Definition aprepend (i : nat) (r : ares) : ares :=
   match r with AFound id => AFound (i :: id) | x => x end.
@@ -207,49 +207,60 @@ Fixpoint apropos_leaf (t : list port) (i : nat) (path : str) : ares :=
   | p :: r =>
       if is_nil path then apropos_leaf r (S i) path
       else if prefixb path (pname p) then AFound [i]
-      else match match_path false (pname p) path with
-           | MSome _ _ => AFound [i]
+      else match match_path (pname p) path with
+           | MRet _ _ => AFound [i]
            | MNull => apropos_leaf r (S i) path
-           | MUnsupported => AUnsupported
+           | MFuel => AUnsupported
            end
   end.
 
-(* p.ports->apropos(path), p.ports non-NULL.
+(* the first loop of apropos over the table t: ports whose name holds a '/'.
+   rec = the recursive call port.ports->apropos(path_end).
    [pinned] = true is the code before the commit "fix: apropos returned NULL
    for the address of a sub-tree ...": the decision to descend looked at the
    byte after the FIRST '/' of path (strchr(path,'/')[1]) instead of at
    *path_end; kept for the regression witness in PathRegress.v *)
+Section Loop1.
+  Variable rec : port -> str -> ares.
+  Variable pinned : bool.
+  Variable t : list port.
+  Variable path : str.
+
+  Fixpoint apropos_loop1 (l : list port) (i : nat) {struct l} : ares :=
+    match l with
+    | [] => apropos_leaf t 0%nat path
+    | q :: r =>
+        if has_char 47 (pname q) then
+          match match_path (pname q) path with
+          | MRet _ path_end =>
+              match psub q with
+              | Some _ =>
+                  if pinned then
+                    match after_first_slash path with
+                    | None => ACrash
+                    | Some true => aprepend i (rec q path_end)
+                    | Some false => AFound [i]
+                    end
+                  else
+                    (* (port.ports && *path_end) ? port.ports->apropos(path_end) : &port *)
+                    if negb (is_nil path_end) then aprepend i (rec q path_end)
+                    else AFound [i]
+              | None => AFound [i]
+              end
+          | MNull => apropos_loop1 r (S i)
+          | MFuel => AUnsupported
+          end
+        else apropos_loop1 r (S i)
+    end.
+End Loop1.
+
+(* p.ports->apropos(path), p.ports non-NULL *)
 Fixpoint apropos_port (pinned : bool) (p : port) (path0 : str) {struct p} : ares :=
   match p with
   | Port _ _ None => ANull
   | Port _ _ (Some t) =>
       let path := match path0 with c :: r => if c =? 47 then r else path0 | [] => path0 end in
-      (fix loop1 (l : list port) (i : nat) {struct l} : ares :=
-         match l with
-         | [] => apropos_leaf t 0%nat path
-         | q :: r =>
-             if has_char 47 (pname q) then
-               match match_path false (pname q) path with
-               | MSome _ path_end =>
-                   match psub q with
-                   | Some _ =>
-                       if pinned then
-                         match after_first_slash path with
-                         | None => ACrash
-                         | Some true => aprepend i (apropos_port pinned q path_end)
-                         | Some false => AFound [i]
-                         end
-                       else
-                         (* (port.ports && *path_end) ? port.ports->apropos(path_end) : &port *)
-                         if negb (is_nil path_end) then aprepend i (apropos_port pinned q path_end)
-                         else AFound [i]
-                   | None => AFound [i]
-                   end
-               | MNull => loop1 r (S i)
-               | MUnsupported => AUnsupported
-               end
-             else loop1 r (S i)
-         end) t 0%nat
+      apropos_loop1 (fun q pe => apropos_port pinned q pe) pinned t path t 0%nat
   end.
 
 Definition apropos (root : list port) (path : str) : ares :=
